@@ -18,4 +18,4 @@ THOROUGH = CONFIGS + [
 
 
 def run(check):
-    usimrun.explore(check, OBS, CONFIGS if check.tier == 'quick' else THOROUGH)
+    usimrun.explore(check, OBS, CONFIGS if check.tier == 'quick' else THOROUGH, random=True)
